@@ -196,7 +196,18 @@ func runCaseOnce(c scase) obs {
 	for _, k := range c.calls {
 		switch k.idle {
 		case 'i':
-			vd.VerifSetLastSent(time.Time{})
+			// idle: the previous command lies at least 100 ms back -- a little, seconds, a day, or never
+			idleSeq++
+			switch idleSeq % 4 {
+			case 0:
+				vd.VerifSetLastSent(time.Time{})
+			case 1:
+				vd.VerifSetLastSent(time.Now().Add(-150 * time.Millisecond))
+			case 2:
+				vd.VerifSetLastSent(time.Now().Add(-2 * time.Second))
+			default:
+				vd.VerifSetLastSent(time.Now().Add(-24 * time.Hour))
+			}
 		case 'b':
 			vd.VerifSetLastSent(time.Now().Add(time.Hour))
 		}
@@ -400,6 +411,8 @@ func formatObs(c scase, o obs) string {
 }
 
 // runScript: gvrun script <casefile>
+var idleSeq int
+
 func runScript() {
 	f, err := os.Open(os.Args[2])
 	if err != nil {
